@@ -86,3 +86,76 @@ func Assignable(env *ty.Env, a, b *ty.Ty) bool {
 	}
 	return Identical(env, env.Under(a), env.Under(b))
 }
+
+// occurrence contexts for Walk
+const (
+	CtxTop    = iota
+	CtxComp   // struct field, slice/array element, map value
+	CtxKey    // map key
+	CtxTarget // pointer target
+)
+
+// Walk visits every type occurrence reachable from t (through declarations, each once).
+func Walk(env *ty.Env, t *ty.Ty, ctx int, seen map[int]bool, f func(t *ty.Ty, ctx int)) {
+	f(t, ctx)
+	switch t.K {
+	case ty.Named:
+		if seen[t.N] {
+			return
+		}
+		seen[t.N] = true
+		u := env.Decls[t.N].Under
+		// the declaration's own underlying type is not a separate occurrence; visit its parts
+		walkParts(env, u, seen, f)
+	default:
+		walkParts(env, t, seen, f)
+	}
+}
+
+func walkParts(env *ty.Env, u *ty.Ty, seen map[int]bool, f func(t *ty.Ty, ctx int)) {
+	switch u.K {
+	case ty.Ptr:
+		Walk(env, u.Elem, CtxTarget, seen, f)
+	case ty.Slice, ty.Array, ty.Chan:
+		Walk(env, u.Elem, CtxComp, seen, f)
+	case ty.Map:
+		Walk(env, u.Key, CtxKey, seen, f)
+		Walk(env, u.Elem, CtxComp, seen, f)
+	case ty.Struct:
+		for _, fl := range u.Fields {
+			Walk(env, fl.T, CtxComp, seen, f)
+		}
+	}
+}
+
+func isUnnamedStruct(t *ty.Ty) bool { return t.K == ty.Struct }
+
+func basicOK(t *ty.Ty) bool { return t.K != ty.Chan && t.K != ty.Func && t.K != ty.Iface }
+
+// SupportedCompare: no unnamed struct anywhere (plugin/compare has no case for it), value keys.
+func SupportedCompare(env *ty.Env, t *ty.Ty) bool {
+	ok := true
+	Walk(env, t, CtxTop, map[int]bool{}, func(x *ty.Ty, ctx int) {
+		if !basicOK(x) || isUnnamedStruct(x) {
+			ok = false
+		}
+		if ctx == CtxKey && !env.CanEqual(x) {
+			ok = false
+		}
+	})
+	return ok
+}
+
+// SupportedHash: unnamed structs are fine except as map keys (keys are sorted with derived Compare).
+func SupportedHash(env *ty.Env, t *ty.Ty) bool {
+	ok := true
+	Walk(env, t, CtxTop, map[int]bool{}, func(x *ty.Ty, ctx int) {
+		if !basicOK(x) {
+			ok = false
+		}
+		if ctx == CtxKey && (!env.CanEqual(x) || !SupportedCompare(env, x)) {
+			ok = false
+		}
+	})
+	return ok
+}
